@@ -1,6 +1,7 @@
 /-
-  The protocol for every machine of the engine, by induction on the nesting depth; `ed`, `coll` and `ms` machines
-  enter through a hypothesis (`AtomHyp`), see Props/C04.lean for what is proved about them.
+  The protocol for every machine of the engine, by induction on the nesting depth.  All seven classes are proved
+  (the per-class lemmas live in LazyColl, LazyEd*, LazyWm*, LazyMs*); `AtomHyp` survives only as a trivially true
+  parameter (no machine is an atom any more).
 -/
 import GtModel.Proofs.LazyEdF
 import GtModel.Proofs.LazyMsD
